@@ -9,29 +9,32 @@ Names(st) == DOMAIN st.path
 AllOK(st) == \A o \in Names(st) : PathOK(st.path[o])
 OK == <<"ok", "ok">>
 
-Verdict(pre, s) ==
+\* the set of failing clauses of one step: the first failing clause PER PROPERTY (a step can break C09 and C10 at once,
+\* e.g. a compound move that displaces the collection and its children by different amounts)
+Verdicts(pre, s) ==
   LET post == s.post
       call == s.call
       same == post.path = pre.path
   IN IF call.bad # "" THEN
-        (IF ~same THEN <<"C09", "RejectedChanged">>
-         ELSE IF s.outcome = "raise" THEN OK
-         ELSE IF s.outcome = "ok" THEN <<"-", "BadAccepted">> ELSE <<"-", "ForeignException">>)
-     ELSE IF s.outcome # "ok" THEN (IF same THEN <<"-", "WellFormedRejected">> ELSE <<"C09", "RejectedChanged">>)
-     ELSE IF ~AllOK(post) THEN <<"C09", "EqualLength">>
-     ELSE LET exp == ApplyPath(pre, call) IN
-          IF exp.path[call.o] # post.path[call.o] THEN <<"C09", "OwnPath">>
-          ELSE IF ~FrameKept(pre, post, call.o) THEN <<"C10", "Frame">>
-          ELSE IF ~RelPoseKept(pre, post, call.o) THEN <<"C10", "RelPose">>
-          ELSE IF s.field.has /\ SubLen(pre, call.o) /\ ~IsPadSliceImage(s.field.post, s.field.pre) THEN <<"C10", "InternalField">>
-          ELSE IF exp.path # post.path THEN <<"-", "CompoundPost">>
-          ELSE IF \E i \in DOMAIN s.alts : s.alts[i].outcome # "ok" \/ s.alts[i].post.path # exp.path THEN <<"C09", "FormsDisagree">>
-          ELSE OK
+        (IF ~same THEN {<<"C09", "RejectedChanged">>}
+         ELSE IF s.outcome = "raise" THEN {}
+         ELSE IF s.outcome = "ok" THEN {<<"-", "BadAccepted">>} ELSE {<<"-", "ForeignException">>})
+     ELSE IF s.outcome # "ok" THEN (IF same THEN {<<"-", "WellFormedRejected">>} ELSE {<<"C09", "RejectedChanged">>})
+     ELSE IF ~AllOK(post) THEN {<<"C09", "EqualLength">>}
+     ELSE LET exp == ApplyPath(pre, call)
+              v09 == IF exp.path[call.o] # post.path[call.o] THEN {<<"C09", "OwnPath">>}
+                     ELSE IF \E i \in DOMAIN s.alts : s.alts[i].outcome # "ok" \/ s.alts[i].post.path # exp.path THEN {<<"C09", "FormsDisagree">>}
+                     ELSE {}
+              v10 == IF ~FrameKept(pre, post, call.o) THEN {<<"C10", "Frame">>}
+                     ELSE IF ~RelPoseKept(pre, post, call.o) THEN {<<"C10", "RelPose">>}
+                     ELSE IF s.field.has /\ SubLen(pre, call.o) /\ ~IsPadSliceImage(s.field.post, s.field.pre) THEN {<<"C10", "InternalField">>}
+                     ELSE {}
+          IN IF v09 \cup v10 # {} THEN v09 \cup v10
+             ELSE IF exp.path # post.path THEN {<<"-", "CompoundPost">>} ELSE {}
 
 BadOf(i) == LET e == Trace[i]
                steps == e.steps
-           IN {<<steps[k].tid, Verdict(e.pre, steps[k]), steps[k].call.op, steps[k].outcome>> :
-                  k \in {k \in 1..Len(steps) : Verdict(e.pre, steps[k])[1] # "ok"}}
+           IN UNION {{<<steps[k].tid, v, steps[k].call.op, steps[k].outcome>> : v \in Verdicts(e.pre, steps[k])} : k \in 1..Len(steps)}
 RECURSIVE CountRange(_, _)
 CountRange(lo, hi) == IF lo > hi THEN 0 ELSE IF lo = hi THEN Len(Trace[lo].steps)
                       ELSE LET mid == (lo + hi) \div 2 IN CountRange(lo, mid) + CountRange(mid + 1, hi)
